@@ -477,7 +477,8 @@ impl<'r> Gen<'r> {
     }
 
     fn gen_leaf(&mut self, ty: &Ty, scope: &[Var]) -> Expr {
-        let vars = self.vars_of(scope, ty);
+        let anywhere = self.closure_literals_anywhere;
+        let vars: Vec<&Var> = self.vars_of(scope, ty).into_iter().filter(|v| anywhere || !v.is_closure).collect();
         if !vars.is_empty() && self.rng.chance(2, 3) {
             let v = self.rng.pick_ref(&vars);
             return Expr::Var(v.name.clone());
@@ -594,7 +595,9 @@ impl<'r> Gen<'r> {
         }
         if let Ty::Func(ps, r) = ty {
             // function values never go through if / match / call strategies in the clean lattice
-            let vars = self.vars_of(scope, ty);
+            // (a variable bound to a closure literal is a closure value: same gate as closure literals)
+            let anywhere = self.closure_literals_anywhere;
+            let vars: Vec<&Var> = self.vars_of(scope, ty).into_iter().filter(|v| anywhere || !v.is_closure).collect();
             if !vars.is_empty() && self.rng.bool() {
                 return Expr::Var(self.rng.pick_ref(&vars).name.clone());
             }
